@@ -2290,6 +2290,7 @@ package sarama
 //@   ensures[buffer_object_kept] bp.buffer == old(bp.buffer)
 //@   ensures[retry_pass_runs_when_a_set_was_left_for_retry] len(retryTopics) > 0 ==> sent.swept == old(sent.swept) + 2
 //@   ensures[single_pass_otherwise] len(retryTopics) == 0 ==> sent.swept == old(sent.swept) + 1
+//@   modifies sent.handled, bp.timer, bp.timerFired, produceSet.bufferBytes, produceSet.bufferCount, produceSet.msgs, produceSet.swept, partitionSet.bufferBytes, partitionSet.msgs, ProducerMessage.disp, ProducerMessage.errEvents, ProducerMessage.succEvents, ProducerMessage.flags, ProducerMessage.retries, ProducerMessage.sequenceNumber, ProducerMessage.producerEpoch, ProducerMessage.hasSequence, ProducerMessage.Offset, ProducerMessage.Timestamp, transactionManager.producerEpoch, $wg, maps
 //@   callsite produceSet.eachPartition#0: requires[first_pass_over_the_sent_set] $recv == sent
 //@   callsite produceSet.eachPartition#1: requires[retry_pass_over_the_sent_set] $recv == sent && len(retryTopics) > 0
 //@   nosafety
@@ -2348,6 +2349,19 @@ package sarama
 //@   nosafety
 
 // messages reaching a broker worker were admitted by the dispatcher and counted by the retry path (A-input bound)
+// a response names the produce set it answers; that set was handed over on bp.output, after which the worker's buffer
+// was rolled over (A-conc: the element predicate is an obligation at the send site in newBrokerProducer's bridge)
+//@ channel brokerProducer.responses r
+//@   recv ensures r != nil && r.set != nil && r.set != owner.buffer
+// (C01) the bridge goroutine of a broker worker: every produce set taken from the bridge is sent to the broker once
+// and answered with exactly one response that names this very set and carries the broker's answer and error
+//@ func (b *Broker) Produce(request) trusted
+//@   returns rsp, err
+//@   modifies nothing
+//@ func asyncProducer.newBrokerProducer#lit0() props C01
+//@   callsite Broker.Produce: requires[the_request_built_from_the_set] $request == request
+//@   callsite send.responses: requires[one_response_naming_the_set_with_the_brokers_verdict] $value != nil && $value.set == set && $value.err == err && $value.res == response
+//@   nosafety
 //@ channel brokerProducer.input m
 //@   recv ensures m == nil || (m.retries >= 0 && m.retries < 4611686018427387904 && 0 <= bsz(m, 1) && bsz(m, 1) <= 2305843009213693952 && 0 <= bsz(m, 2) && bsz(m, 2) <= 2305843009213693952 && len(m.Headers) <= 1048576 && forall i :: 0 <= i && i < len(m.Headers) ==> len(m.Headers[i].Key) <= 2147483648 && len(m.Headers[i].Value) <= 2147483648)
 
